@@ -21,6 +21,7 @@ type Program struct {
 	pkgs         []*packages.Package
 	CS           *ContractSet
 	fnByKey      map[string]*ssa.Function
+	anonByKey    map[string]*ssa.Function
 	allTypesPkgs []*types.Package
 	typesByPath  map[string]*types.Package
 	errs         []string
@@ -57,7 +58,7 @@ func (p *Program) pos(pos token.Pos) string {
 // when the repository does not carry the file itself.
 func loadProgram(repo, contractsDir string, patterns []string) (*Program, error) {
 	overlay := map[string][]byte{}
-	p := &Program{CS: newContractSet(), fnByKey: map[string]*ssa.Function{}, typesByPath: map[string]*types.Package{}, repo: repo, declPkgOf: map[string]string{}}
+	p := &Program{CS: newContractSet(), fnByKey: map[string]*ssa.Function{}, anonByKey: map[string]*ssa.Function{}, typesByPath: map[string]*types.Package{}, repo: repo, declPkgOf: map[string]string{}}
 	filepath.Walk(contractsDir, func(path string, info os.FileInfo, err error) error {
 		if err != nil || info.IsDir() || !strings.HasSuffix(path, "_verif.go") {
 			return nil
@@ -134,6 +135,11 @@ func loadProgram(repo, contractsDir string, patterns []string) (*Program, error)
 			continue
 		}
 		if fn.Parent() != nil {
+			// function literals can be put under contract as <pkg>.<outer>$<n> (they are not enumerated by scans,
+			// which reach them through their parents)
+			if fn.Pkg != nil {
+				p.anonByKey[fn.Pkg.Pkg.Path()+"."+fn.Name()] = fn
+			}
 			continue
 		}
 		p.fnByKey[fnKey(fn)] = fn
